@@ -80,6 +80,7 @@ class _Gen:
         self.exit_line_emitted = False
         self.idempotent = {}
         self.symlinks = {}
+        self.phase_after_plant = None
 
     # ---- helpers --------------------------------------------------------
     def new_tag(self):
@@ -315,6 +316,9 @@ class _Gen:
                     self.planted['n'] = len(got)
                     lines.extend(got)
                     idem = False
+                    if self.phase_after_plant is not None:
+                        phase = self.phase_after_plant
+                        seen.append(phase)
                     continue
             kind = self.item_kind(phase, depth, first=(k == 1), after_header=after_header)
             after_header = kind == 'hdr'
@@ -536,7 +540,13 @@ class _Gen:
             if phase != 'conf':
                 pool = ['dir', 'file', 'def string X =', 'dir', 'file', 'def string X =', 'cd', 'copy', 'run',
                         'timeout =', 'env X =', 'file x-%s.txt =' % T] + (['exists'] if phase == 'assert' else [])
-            hdr = self.header(self.choice(PHASES)) if self.draw(_int_below(5)) else self.choice(_UNKNOWN_HEADERS)
+            if self.draw(_int_below(5)):
+                # (what follows is written for the phase of this header: read in the old phase - KF-C07-1 - it is
+                # mostly something else than what it is meant to be)
+                self.phase_after_plant = self.choice(PHASES)
+                hdr = self.header(self.phase_after_plant)
+            else:
+                hdr = self.choice(_UNKNOWN_HEADERS)
             lines, ident = [self.choice(pool)] + self.some(_BLANKS, 0, 2) + [hdr], 'SYNTAX_ERROR'
         elif phase == 'conf':
             lines, ident, desc_ok = ['status = %s' % T], 'SYNTAX_ERROR', True
